@@ -55,6 +55,7 @@ type vfakeMetadata struct {
 	writeMask func(vbID uint16) bool
 	onSave    func()
 	loadErr   error
+	loadSkip  func(vbID uint16) bool // Load leaves these vBuckets out of its result (e.g. a file written for a narrower assignment)
 }
 
 type vStoreErr struct{}
@@ -84,6 +85,9 @@ func (f *vfakeMetadata) Load(vbIds []uint16, bucketUUID string) (*wrapper.Concur
 	state := wrapper.CreateConcurrentSwissMap[uint16, *models.CheckpointDocument](1024)
 	exist := false
 	for _, vbID := range vbIds {
+		if f.loadSkip != nil && f.loadSkip(vbID) {
+			continue
+		}
 		if doc, ok := f.store[vbID]; ok {
 			state.Store(vbID, doc)
 			exist = true
